@@ -6,6 +6,25 @@ import os
 ROOT = os.path.dirname(os.path.dirname(os.path.abspath(__file__)))
 
 CHECKS = {
+    "C01": dict(
+        technique="runtime monitors on diagnostics and segmentation (M-DIAG, M-SEG, M-CLI) over grammar-generated conforming files",
+        text="Files generated from the conforming-program grammar (random + deterministic cycling of constant shapes and "
+             "operator/operand/context combinations, hostile identifiers) are run through the real lexer, rules and "
+             "command line under monitors: no Error-level diagnostic may be emitted, nothing may be left unrecognised, "
+             "the status must be OK and the CLI must print `<name>: OK!` and exit 0. A failing case is reported with the "
+             "diagnostic, its emitter and the IR tokens around the highlight.",
+        note="The conformance of the generated files rests on the grammar of DESIGN §4.1 (a sub-language of Norm-conforming "
+             "C); recorded false positives are matched by structural predicates (known_findings.json).",
+        design="§3.2, §4.1"),
+    "C02": dict(
+        technique="runtime monitor on emitted diagnostics (M-DIAG) over a catalogue of one-violation edit operators applied to accepted programs",
+        text="73 edit operators, each tied to a diagnostic code and a Norm sentence, are applied at IR-known sites of "
+             "generated programs the tool accepts; the monitored run must emit that code on the edited line, set status "
+             "Error, and the CLI must print Error! and exit non-zero. Per-operator applied/detected counts are in evidence.",
+        note="Operator preconditions are evaluated on the generator's IR, not with the tool's lexer. Sites where the tool "
+             "has no designated code are outside the catalogue (DESIGN §4.2); context-dependent misses are recorded by "
+             "mechanism in known_findings.json.",
+        design="§4.2"),
     "C09": dict(
         technique="runtime monitor on the lexer cursor (M-LEX) compared with an independent position scanner",
         text="Every token produced by the real lexer on an exhaustively enumerated small-string space, on seeded lexeme "
